@@ -150,7 +150,7 @@ def run(R, ctx):
                   "non-trivial = accepted by the filter and carrying an Args array. ")
     execsuite.run_exec_suite(
         R, ctx, name="cluster-path",
-        gens=[(w, no_long_block(g)) for w, g in families.all_gens()],
+        gens=families.all_gens(),
         nprog=(700, 8000), corpus="exec_c14", cluster=True,
         what="EVERY command family (strings/keys, lists, hashes, sets, sorted sets, streams; upper/lower/capitalised command and option words; keys and "
              "values with spaces, empty, CR/LF, NUL and 0xff bytes) submitted through the cluster path: ClusterCmdFilter -> newClusterProposal -> "
